@@ -5,6 +5,7 @@
 #include "sim.hh"
 #include <cstdarg>
 #include <algorithm>
+#include <unistd.h>
 
 extern long g_ienv[9];
 
@@ -83,6 +84,14 @@ void on_init(long n, const void *ptr, long c) {
         for (long j = 0; j < n; ++j)
             if (shared->pan_status[j].type == RELAXED_SNODE && shared->pan_status[j].size > 0) { slot_start[j] = map[j]; if (prev >= 0) slot_end[prev] = map[j]; prev = j; }
         if (prev >= 0) slot_end[prev] = Glu->nextlu;
+    }
+    if (sim::trace_fd >= 0) {
+        std::string t = "INIT map_in_sup:"; for (long j = 0; j <= n; ++j) t += " " + std::to_string((long)map[j]);
+        t += "\n     part_super_h:"; for (long j = 0; j < n; ++j) t += " " + std::to_string((long)options->part_super_h[j]);
+        t += "\n     colcnt_h:"; for (long j = 0; j < n; ++j) t += " " + std::to_string((long)options->colcnt_h[j]);
+        t += "\n     etree:"; for (long j = 0; j < n; ++j) t += " " + std::to_string((long)et[j]);
+        t += "\n     panels:"; for (long j = 0; j < n; ++j) t += " " + std::to_string((long)shared->pan_status[j].size) + (shared->pan_status[j].type == RELAXED_SNODE ? "r" : "p");
+        t += "\n"; if (write(sim::trace_fd, t.data(), t.size()) < 0) {}
     }
     if (shared->num_splits > 0) probes["panel_split_at_top"]++;
     probes["factorizations_monitored"]++;
